@@ -26,7 +26,7 @@ func init() { core.Register(c01{}) }
 
 func (c01) ID() string { return "C01" }
 func (c01) Rule() string {
-	return "plans: valid signatures made by the real signing API (2 signers, JWS/COSE, 3 OCI descriptors sharing digests or sizes, 3 blobs sharing sizes, metadata variants, optional expiry), then 0-4 faults on the stored signatures (bit flip, byte insert, truncation, field-level JWS / element-level COSE splice between two stored envelopes, raw prefix+suffix splice, whitespace and unprotected-header edits), then <= 12 verifications through the four entry points with mis-delivery (signature of X presented for Y, other blob, other stated content media type, other envelope media type) under every non-skip level and legal override, required metadata (subset, superset, altered) and collaborators {healthy, trust anchor missing, store error, revoked, revocation error}. A share of the runs keeps one verifier object for every verification of the run; half of them keep the caller's required-metadata maps across calls (the oracle judges by pristine copies). non-trivial: at least one verification of a mutated or mis-delivered signature; distinct: hash of the (mutation, delivery, configuration, verdict) sequence"
+	return "plans: valid signatures made by the real signing API (2 signers, JWS/COSE, 3 OCI descriptors sharing digests or sizes, 3 blobs sharing sizes, metadata variants, optional expiry), then 0-4 faults on the stored signatures (bit flip, byte insert, truncation, field-level JWS / element-level COSE splice between two stored envelopes, raw prefix+suffix splice, whitespace and unprotected-header edits), then <= 12 verifications through the four entry points with mis-delivery (signature of X presented for Y, other blob, other stated content media type - also spellings a tolerant comparison would take for the signed one -, other envelope media type) under every non-skip level and legal override, required metadata (subset, superset, altered) and collaborators {healthy, trust anchor missing, store error, revoked, revocation error}. A share of the runs keeps one verifier object for every verification of the run; half of them keep the caller's required-metadata maps across calls (the oracle judges by pristine copies). non-trivial: at least one verification of a mutated or mis-delivered signature; distinct: hash of the (mutation, delivery, configuration, verdict) sequence"
 }
 func (c01) Components() map[string]string {
 	return map[string]string{
@@ -93,6 +93,9 @@ type c01Sig struct {
 }
 
 var c01Meta = []map[string]string{nil, {"k1": "v1"}, {"k1": "v1", "k2": "v2"}, {"k1": "v1", "empty": ""}}
+var c01OtherMediaTypes = []string{"text/plain", "Application/Octet-Stream", "application/octet-stream; version=2", "application/octet-stream;charset=utf-8",
+	"APPLICATION/OCTET-STREAM", "application/octet-stream ", "application/octet-stream;", "application/octet_stream", "application/octet-stream+json"}
+
 var c01Required = []map[string]string{nil, {"k1": "v1"}, {"k1": "v1", "k2": "v2"}, {"k1": "other"}, {"k3": "v3"},
 	{"empty": ""}, {"k1": "v1", "approved": ""}, {"k1": ""}, {"K1": "v1"}}
 
@@ -318,6 +321,11 @@ func (l c01) Exec(env *core.Env) *core.Result {
 					}
 				}
 				stated := []string{"", blobMT, "text/plain"}[op.Int(7)%3]
+				if stated == "text/plain" {
+					// another media type - also ones that only a tolerant comparison (letter case, parameters,
+					// white space) would take for the signed one
+					stated = c01OtherMediaTypes[(op.Int(1)+op.Int(2)+op.Int(5))%int64(len(c01OtherMediaTypes))]
+				}
 				var verr error
 				var outcome *notation.VerificationOutcome
 				want := world.JudgeWant{Required: pristine}
